@@ -82,7 +82,20 @@ RULE = (
     '(k) radius / height / wavelength / density / cross sections carrying variances; (l) wavelength and detector '
     'dims named row / quad / x / event / vertex / wavelength-for-the-detectors, integer wavelengths, operands '
     'without a meaning by label; (m) once per run beam_intersection with 2**20 + 7 paired rays, 3 x 400001 rays '
-    'and a 300 x 4001 outer product; a case is never trivial; distinct = distinct (kind of case, unit, axis '
+    'and a 300 x 4001 outer product; (n) sizes that coincide with sizes used inside the code: detector counts equal to '
+    'the number of nodes of the quadrature in use (read from the quadrature the solid hands out; cheap on every '
+    'shard with 5..15 axial nodes, medium in three parts over the shards, expensive once per run), one fewer, one more, '
+    'as 1-d list and as either dim of a 2-d layout, wavelength counts likewise, detector counts equal to the nodes of '
+    'the disk / axial factor, to the number of wavelengths, to 2 / 3 / 4; the same pixels in two batches and as flat '
+    'list compared; beam_intersection operands of length 3 / 2 / 4; (o) the very same operand objects modified in '
+    'place between two calls (slice, all values, unit, 0-d value, density) - compared with a call on fresh copies; '
+    'results and arguments do not share memory (argument write / result write / repeat; array, 0-d, zero-density '
+    'forms); (p) dim labels that are not NFC / NFKC in pairs that normalise to the same text (nine pairs) for the '
+    'wavelength / detector dims and for start points / directions; kind names that only normalise to a kind; (q) '
+    'four subprocesses per run that import only the module of the entry point (and of its argument classes) under '
+    'another PYTHONHASHSEED and call beam_intersection / quadrature / compute_transmission_map (flat, 2-d, 3-d '
+    'detector layouts) first: compared with the same calls in the worker; '
+    'a case is never trivial; distinct = distinct (kind of case, unit, axis '
     'class, r/h decade, call shape / quadrature kind / optical-depth decade) signatures'
 )
 ASSUMPTIONS = [
@@ -137,11 +150,21 @@ ASSUMPTIONS = [
     'absolute on the map); pickling is left out: scipp Variables of this version refuse it on the unchanged tree',
     'not applicable to the entry points of this property: masks and one-shot iterables (all operands are '
     'scipp Variables / scalars, no collection is documented)',
+    'arguments and results are separate objects: a result does not change when an argument is overwritten in '
+    'place afterwards and vice versa (bitwise), and a call on operand objects whose contents were modified in place '
+    'answers for the contents at the time of the call; the coordinates of the returned DataArray are the input '
+    'Variables themselves (scipp DataArray semantics): that sharing is documented and not judged',
+    'dimension labels are compared code point by code point: two labels that normalise (NFC / NFKC) to the same text '
+    'are two dims, and the result carries exactly the labels given; a quadrature kind whose name only normalises to '
+    '"cheap" / "medium" / "expensive" is no deterministic kind of the property: refusing it is expected (counted), '
+    'accepting it is reported',
+    'the first call in a fresh interpreter that imported only the module of the entry point answers what the worker '
+    'process answers for the same inputs (1e-12 relative to the scale of the result), whatever PYTHONHASHSEED is',
     'the evaluation order of the detector dimension is not part of the property: the per-detector '
     'loop and the vectorised evaluation of the same pixels and wavelengths agree to 1e-12 absolute '
     '(different summation order of ~9000 terms in (0, 1])',
 ]
-TIMEOUT_S = {'quick': 900, 'thorough': 3 * 3600}
+TIMEOUT_S = {'quick': 1800, 'thorough': 3 * 3600}
 
 LD = cyl.LD
 EPS = cyl.EPS
@@ -3297,19 +3320,781 @@ def sizes_case(rng, st, Cylinder):
     return s
 
 
+# ------------------------------------- sizes that coincide with internal sizes ---
+DISK_NODES = {'cheap': 12, 'medium': 55, 'expensive': 256}   # workload only: nodes of the disk rules
+COINCIDENCE_CLASSES = (
+    'detectors 1-d: as many as the quadrature has nodes', 'detectors 1-d: one fewer than the quadrature has nodes',
+    'detectors 1-d: one more than the quadrature has nodes',
+    'detectors 2-d: first dim as long as the quadrature',
+    'detectors 2-d: second dim as long as the quadrature',
+    'wavelengths: as many as the quadrature has nodes', 'wavelengths: one fewer than the quadrature has nodes',
+    'wavelengths: one more than the quadrature has nodes',
+    'detectors 1-d: as many as the disk rule has nodes', 'detectors 1-d: as many as the axial rule has nodes',
+    'detectors 1-d: as many as wavelengths', 'detectors 2-d square: each dim as long as the wavelengths',
+    'detectors 1-d: 2, 3, 4 (length of a vector and one off)',
+)
+COINCIDENCE_KINDS = ('cheap', 'medium')
+# which classes a shard runs for the larger rule (index % 3); the cheap rule runs all of them on every shard
+COINCIDENCE_PARTS = ((0, 1, 2), (3, 4), (5, 6, 7, 8, 9, 10, 11, 12))
+RAY_COINCIDENCE_CLASSES = ('rays: 3 paired (length of a vector)', 'rays: 3 x 3 outer product',
+                           'rays: 2-d 3 x 3 starts, 3 directions over the first / the second dim',
+                           'rays: 2 and 4 paired, 2 x 4 outer product')
+
+
+def coincidence_case(rng, st, mods, i, kind, classes):
+    """(p) operand dims exactly as long as something the code handles internally - the nodes of the
+    quadrature in use (read from the quadrature the solid hands out), of its disk and axial factors,
+    the 3 components of a vector, the number of wavelengths - one shorter and one longer: each map is
+    judged by the map monitor (recomputed from the observed nodes); for the exact coincidence the same
+    pixels are also evaluated in two batches, and the 2-d layouts are compared with the flat list of the
+    same pixels (the layout of the detector operand is not part of the property)."""
+    ctx = st.ctx
+    Cylinder, Material, ScatteringParams, ctm = mods
+    C = COINCIDENCE_CLASSES
+    s = _moderate_solid(rng, ctx)
+    mult, lo, hi = NODE_RULE[kind]
+    # number of axial nodes aimed at (workload only): any for the cheap rule, the smaller ones otherwise (cost)
+    k_target = lo + int(rng.integers(0, hi - lo + 1 if kind == 'cheap' else (3 if kind == 'medium' else 1)))
+    s['h'] = float(s['r'] * (k_target + float(rng.uniform(-0.3, 0.3))) / mult)
+    c = make_cylinder(Cylinder, s)
+    U = s['U']
+    st.case_descr = {'kind': 'coinciding sizes', 'quadrature': kind, 'step': 'quadrature read'}
+    try:
+        n_q = int(c.quadrature(kind)[1].sizes['quad'])
+    except Exception:  # noqa: BLE001  judged by the quadrature monitor
+        ctx.count('coinciding sizes: quadrature not available')
+        return s
+    n_disk = DISK_NODES[kind]
+    n_ax = max(2, n_q // n_disk)
+    wide = 3 if kind == 'cheap' else 2            # extent of the other dim of the 2-d layouts
+    n_max = max(n_q + 1, wide * n_q) if (3 in classes or 4 in classes) else n_q + 1
+    lam_A, lam, _, _, beam = _scene(rng, s, 1, 3)
+    centre = s['base'] + s['axis'] * s['h'] / 2
+    dirs = rng.normal(size=(n_max, 3))
+    dirs /= np.linalg.norm(dirs, axis=1)[:, None]
+    D = centre + dirs * ((s['r'] + s['h']) * 10.0 ** rng.uniform(0.5, 3, size=n_max))[:, None]
+    m = _plain_material(mods, s, lam_A, float(rng.uniform(0.5, 2.5)))
+    bv = sc.vector(beam)
+    nl = lam.sizes['wavelength']
+
+    def flat(n):
+        return sc.vectors(dims=['det'], values=D[:n], unit=U)
+
+    def the_map(label, lam_, det_, m_=m):
+        st.case_descr = {'kind': 'coinciding sizes', 'quadrature': kind, 'nodes': n_q, 'class': label,
+                         'detector_dims': dict(det_.sizes), 'wavelengths': int(lam_.size)}
+        st.maps.clear()
+        try:
+            ctm(c, m_, bv, lam_, det_, kind)
+        except Exception:  # noqa: BLE001  judged by the map monitor
+            pass
+        ctx.case(('coinciding sizes', label, kind, U))
+        return _last_T(st)
+
+    def done(label, t):
+        if t is not None:
+            ctx.hit(f'sizes [{kind}]: {label}')
+
+    def batches(label, det_):
+        """The whole operand, then the same pixels in two batches."""
+        whole = the_map(label, lam, det_)
+        d0 = det_.dims[0]
+        half = det_.sizes[d0] // 2
+        parts = [the_map(label + ' (first batch)', lam, det_[d0, :half].copy()),
+                 the_map(label + ' (second batch)', lam, det_[d0, half:].copy())]
+        if whole is None or any(p is None for p in parts):
+            ctx.count('coinciding sizes: batches not compared')
+        else:
+            _same_map(st, np.concatenate(parts, axis=0), whole, label, 'map_same_pixels_in_batches')
+        done(label, whole)
+
+    if 0 in classes:
+        batches(C[0], flat(n_q))
+    if 1 in classes:
+        done(C[1], the_map(C[1], lam, flat(n_q - 1)))
+    if 2 in classes:
+        done(C[2], the_map(C[2], lam, flat(n_q + 1)))
+    if 3 in classes or 4 in classes:
+        t_flat = the_map(f'flat list of {wide} n pixels', lam, flat(wide * n_q))
+        for k, dims, shape in ((3, ['pixel', 'tube'], (n_q, wide)), (4, ['tube', 'pixel'], (wide, n_q))):
+            if k in classes:
+                g = sc.vectors(dims=dims, values=D[:wide * n_q].reshape(*shape, 3), unit=U)
+                t = the_map(C[k], lam, g)
+                _same_map(st, t_flat, t, C[k], 'map_same_pixels_in_batches')
+                done(C[k], t)
+    # wavelengths: n distinct values over 0.1 .. 20 angstrom, two pixels
+    for k, n in ((5, n_q), (6, n_q - 1), (7, n_q + 1)):
+        if k in classes:
+            vals = np.exp(np.linspace(np.log(0.1), np.log(20.0), n)) * np.exp(rng.uniform(-1e-3, 1e-3, size=n))
+            vals = np.clip(np.sort(vals), 0.1, 20.0)
+            lam_n = sc.array(dims=['wavelength'], values=vals, unit='angstrom')
+            m_n = _plain_material(mods, s, vals, float(rng.uniform(0.5, 2.5)))
+            done(C[k], the_map(C[k], lam_n, flat(2), m_n))
+    if 8 in classes:
+        done(C[8], the_map(C[8], lam, flat(n_disk)))
+    if 9 in classes:
+        done(C[9], the_map(C[9], lam, flat(n_ax)))
+    if 10 in classes:
+        batches(C[10], flat(nl))
+    if 11 in classes:
+        t_sq_flat = the_map('flat list of n_lambda^2 pixels', lam, flat(nl * nl))
+        t = the_map(C[11], lam, sc.vectors(dims=['row', 'col'], values=D[:nl * nl].reshape(nl, nl, 3), unit=U))
+        _same_map(st, t_sq_flat, t, C[11], 'map_same_pixels_in_batches')
+        done(C[11], t)
+    if 12 in classes:
+        ts = [the_map(C[12], lam, flat(n)) for n in (2, 3, 4)]
+        done(C[12], None if any(t is None for t in ts) else ts[0])
+    st.maps.clear()
+    st.case_descr = None
+    return s
+
+
+def ray_coincidence_case(rng, st, Cylinder, i):
+    """(p) for beam_intersection: operand dims of length 3 (the components of a vector), 2 and 4, paired,
+    as outer products and as a 3 x 3 table against 3 directions over either dim; every entry judged."""
+    ctx = st.ctx
+    s = _moderate_solid(rng, ctx)
+    U = s['U']
+    c = make_cylinder(Cylinder, s)
+    P, N = bulk_rays(rng, s, 24)
+    R = RAY_COINCIDENCE_CLASSES
+
+    def S(dims, shape, off=0):
+        n = int(np.prod(shape))
+        return sc.vectors(dims=list(dims), values=P[off:off + n].reshape(*shape, 3), unit=U)
+
+    def Dr(dims, shape, off=0):
+        n = int(np.prod(shape))
+        return sc.vectors(dims=list(dims), values=N[off:off + n].reshape(*shape, 3))
+
+    calls = ((R[0], S(['ray'], [3]), Dr(['ray'], [3])),
+             (R[1], S(['a'], [3]), Dr(['b'], [3], 3)),
+             (R[2], S(['a', 'b'], [3, 3]), Dr(['a'], [3], 9)),
+             (R[2], S(['a', 'b'], [3, 3], 9), Dr(['b'], [3], 3)),
+             (R[3], S(['ray'], [2]), Dr(['ray'], [2], 5)),
+             (R[3], S(['ray'], [4], 3), Dr(['ray'], [4], 7)),
+             (R[3], S(['a'], [2], 11), Dr(['b'], [4], 13)))
+    for label, sp, dr in calls:
+        st.case_descr = {'kind': 'coinciding sizes', 'class': label}
+        st.layout, st.ray_classes = label, None
+        before = st.outer_returns
+        try:
+            c.beam_intersection(sp, dr)
+        except Exception:  # noqa: BLE001  judged by the monitor
+            pass
+        st.layout = None
+        if st.outer_returns > before:
+            ctx.hit('sizes: ' + label)
+        ctx.case(('coinciding sizes', label, U))
+    st.case_descr = None
+
+
+# ------------------------- in-place modification between calls, aliasing of results ---
+INPLACE_STEPS = ('start points: a slice overwritten in place', 'directions: all values overwritten in place',
+                 'wavelengths: one value overwritten in place', 'wavelengths: unit replaced in place (nm <-> angstrom)',
+                 'detector positions: a slice overwritten in place', 'beam direction: value overwritten in place',
+                 'density: value overwritten in place')
+ALIAS_ENTRIES = ('beam_intersection, array operands', 'beam_intersection, 0-d operands', 'quadrature',
+                 'compute_transmission_map', 'compute_transmission_map, 0-d detector',
+                 'compute_transmission_map, zero density')
+
+
+def _vals(v):
+    """A private copy of the numbers a Variable holds now."""
+    return np.array(v.values, dtype=np.float64, copy=True)
+
+
+def _put(v, a):
+    if v.ndim == 0 and v.dtype != sc.DType.vector3:
+        v.value = float(a)
+    elif v.ndim == 0:
+        v.value = np.asarray(a, dtype=np.float64)
+    else:
+        v.values = np.asarray(a, dtype=np.float64)
+
+
+def _same_bits(a, b):
+    return a.shape == b.shape and bool(np.array_equal(a, b, equal_nan=True))
+
+
+def inplace_alias_case(rng, st, mods, i):
+    """(k) the very same operand objects with their contents modified in place between two calls: the
+    second call answers for the new contents (judged by the monitors, which read the operands at the
+    return of the call; the map is also compared with a call on fresh copies of the modified operands);
+    (l) results do not share memory with arguments: writing into an argument leaves a result obtained
+    earlier as it was, writing into a result leaves the arguments as they were and a repeated call gives
+    the first result again.  The coordinates of the returned DataArray ARE the inputs (scipp DataArray
+    semantics, documented sharing): only its data are checked."""
+    ctx = st.ctx
+    Cylinder, Material, ScatteringParams, ctm = mods
+    s = _moderate_solid(rng, ctx)
+    U = s['U']
+    c = make_cylinder(Cylinder, s)
+    n_det = 4
+    lam_nm = np.sort(rng.uniform(1.0, 2.0, size=3))        # 10..20 angstrom as nm, 1..2 angstrom as angstrom
+    lam_nm[1:] = np.maximum(lam_nm[1:], lam_nm[:-1] * 1.05)
+    _, _, D, det, beam = _scene(rng, s, 2 * n_det, 1)
+    det = sc.vectors(dims=['det'], values=D[:n_det], unit=U)
+    lam = sc.array(dims=['wavelength'], values=lam_nm, unit='nm')
+    m = _plain_material(mods, s, lam_nm * 10.0, float(rng.uniform(0.5, 2.0)))
+    bv = sc.vector(beam)
+    kind = KINDS[i % 2]
+    P, N = bulk_rays(rng, s, 24)
+    sp = sc.vectors(dims=['ray'], values=P[:12], unit=U)
+    dr = sc.vectors(dims=['ray'], values=N[:12])
+
+    def rays(label, sp_=None, dr_=None):
+        st.case_descr = {'kind': 'in place / aliasing', 'step': label}
+        st.ray_classes = None
+        try:
+            return c.beam_intersection(sp if sp_ is None else sp_, dr if dr_ is None else dr_)
+        except Exception:  # noqa: BLE001  judged by the monitor
+            return None
+
+    def the_map(label, lam_=None, det_=None, m_=None, bv_=None, c_=None):
+        st.case_descr = {'kind': 'in place / aliasing', 'step': label, 'quadrature': kind}
+        st.maps.clear()
+        try:
+            res = ctm(c if c_ is None else c_, m if m_ is None else m_, bv if bv_ is None else bv_,
+                      lam if lam_ is None else lam_, det if det_ is None else det_, kind)
+        except Exception:  # noqa: BLE001  judged by the map monitor
+            res = None
+        ctx.case(('in place / aliasing', label, kind, U))
+        return res, _last_T(st)
+
+    def harness(label, f):
+        try:
+            f()
+            return True
+        except Exception:  # noqa: BLE001   the harness' own manipulation failed
+            ctx.oracle_error(f'C18 in-place manipulation: {label}')
+            return False
+
+    # ---- (k) beam_intersection
+    rays('first call')
+    for label, f in ((INPLACE_STEPS[0], lambda: sp.values.__setitem__(slice(0, None, 2), P[12:18])),
+                     (INPLACE_STEPS[1], lambda: dr.values.__setitem__(Ellipsis, N[12:24]))):
+        if not harness(label, f):
+            continue
+        got = rays(label)
+        fresh = rays(label + ' (fresh copies)', sp.copy(), dr.copy())
+        if got is not None and fresh is not None:
+            ctx.event('inplace.same_objects_vs_fresh_copies')
+            if not _same_bits(_vals(got), _vals(fresh)):
+                ctx.violation('inplace_operand_not_seen',
+                              f'{label}: the call on the same objects differs from the call on fresh copies '
+                              'of their current contents',
+                              {'monitor': 'in place', 'case': st.case_descr, 'got': _vals(got).tolist()[:6],
+                               'fresh': _vals(fresh).tolist()[:6]}, entry='beam_intersection')
+            ctx.hit('in place: ' + label)
+    # ---- (k) compute_transmission_map
+    the_map('first call')
+    dens = m.effective_sample_number_density
+    steps = ((INPLACE_STEPS[2], lambda: lam.values.__setitem__(1, float(lam.values[1]) * 1.02)),
+             (INPLACE_STEPS[3], lambda: setattr(lam, 'unit', sc.Unit('angstrom'))),
+             (INPLACE_STEPS[4], lambda: det.values.__setitem__(slice(0, None, 2), D[n_det:n_det + 2])),
+             (INPLACE_STEPS[5], lambda: setattr(bv, 'value', -beam)),
+             (INPLACE_STEPS[6], lambda: setattr(dens, 'value', float(dens.value) * 1.7)))
+    for label, f in steps:
+        if not harness(label, f):
+            continue
+        _, t = the_map(label)
+        m_f = Material(m.scattering_params, dens.copy())
+        _, t_f = the_map(label + ' (fresh copies)', lam.copy(), det.copy(), m_f, bv.copy())
+        _same_map(st, t_f, t, label, 'inplace_same_objects_vs_fresh_copies')
+        if t is not None:
+            ctx.hit('in place: ' + label)
+
+    # ---- (l) aliasing
+    def alias(entry, call, args, result_arrays, other_call=None):
+        """call() -> result; args: the Variables handed in (incl. the fields of the objects);
+        result_arrays(result) -> the writable Variables of the result; other_call: the same entry point on
+        the same objects with other operands of the same shape."""
+        st.case_descr = {'kind': 'in place / aliasing', 'step': 'aliasing', 'entry': entry}
+        try:
+            r1 = call()
+        except Exception:  # noqa: BLE001  judged by the monitors
+            ctx.count('aliasing: call raised')
+            return
+        outs = result_arrays(r1)
+        snap_out = [_vals(o) for o in outs]
+        snap_in = [_vals(a) for a in args]
+        # (0) a later call with other operands: the earlier result stays what it was
+        if other_call is not None:
+            try:
+                other_call()
+                called = True
+            except Exception:  # noqa: BLE001  judged by the monitors
+                called = False
+            if called:
+                ctx.event('aliasing.result_after_later_call')
+                if not all(_same_bits(x, _vals(o)) for x, o in zip(snap_out, outs, strict=True)):
+                    ctx.violation('result_shares_memory_with_later_result',
+                                  f'{entry}: a result obtained earlier changed when the entry point was called '
+                                  'again with other operands', {'monitor': 'aliasing', 'case': st.case_descr},
+                                  entry=entry)
+                    snap_out = [_vals(o) for o in outs]
+        # (1) write into every argument: the earlier result stays what it was
+        try:
+            for a, v in zip(args, snap_in, strict=True):
+                _put(a, v * 1.25 + 0.5)
+            after = [_vals(o) for o in outs]
+            for a, v in zip(args, snap_in, strict=True):
+                _put(a, v)
+        except Exception:  # noqa: BLE001
+            ctx.oracle_error('C18 aliasing: writing into the arguments')
+            return
+        ctx.event('aliasing.result_after_argument_write')
+        if not all(_same_bits(x, y) for x, y in zip(snap_out, after, strict=True)):
+            ctx.violation('result_shares_memory_with_argument',
+                          f'{entry}: a result obtained earlier changed when the arguments were overwritten in '
+                          'place', {'monitor': 'aliasing', 'case': st.case_descr}, entry=entry,
+                          direction='argument write seen in result')
+        # (2) write into the result: the arguments stay what they were, the call repeats
+        try:
+            for o in outs:
+                _put(o, _vals(o) * 0.0 - 7.0)
+            now_in = [_vals(a) for a in args]
+        except Exception:  # noqa: BLE001
+            ctx.oracle_error('C18 aliasing: writing into the result')
+            return
+        ctx.event('aliasing.arguments_after_result_write')
+        if not all(_same_bits(x, y) for x, y in zip(snap_in, now_in, strict=True)):
+            ctx.violation('result_shares_memory_with_argument',
+                          f'{entry}: the arguments changed when the result was overwritten in place',
+                          {'monitor': 'aliasing', 'case': st.case_descr}, entry=entry,
+                          direction='result write seen in argument')
+            try:
+                for a, v in zip(args, snap_in, strict=True):
+                    _put(a, v)
+            except Exception:  # noqa: BLE001
+                ctx.oracle_error('C18 aliasing: restoring the arguments')
+                return
+        try:
+            r2 = call()
+            again = [_vals(o) for o in result_arrays(r2)]
+        except Exception:  # noqa: BLE001
+            ctx.count('aliasing: repeated call raised')
+            return
+        ctx.event('aliasing.repeat_after_result_write')
+        d = max((float(np.max(np.abs(x - y))) if x.shape == y.shape and x.size else
+                 (0.0 if x.shape == y.shape else float('inf'))) for x, y in zip(snap_out, again, strict=True))
+        scale = max([1.0] + [float(np.max(np.abs(x))) for x in snap_out if x.size])
+        if not d <= 1e-12 * scale:
+            ctx.violation('repeat_after_result_write',
+                          f'{entry}: after the first result was overwritten in place the same call gives a result '
+                          f'that differs by {d:.3g}', {'monitor': 'aliasing', 'case': st.case_descr}, entry=entry)
+        ctx.hit('aliasing: ' + entry)
+        ctx.case(('aliasing', entry, kind, U))
+
+    fields = [c.symmetry_line, c.center_of_base, c.radius, c.height]
+    # the axis is rescaled by the argument write (v * 1.25 + 0.5 is no unit vector): nothing is CALLED while
+    # the arguments hold those values, they are restored first
+    E = ALIAS_ENTRIES
+    sp_o = sc.vectors(dims=['ray'], values=P[12:24], unit=U)
+    dr_o = sc.vectors(dims=['ray'], values=np.roll(N[:12], 5, axis=0))
+    alias(E[0], lambda: c.beam_intersection(sp, dr), [sp, dr, *fields], lambda r: [r],
+          lambda: c.beam_intersection(sp_o, dr_o))
+    sp0, dr0 = sp['ray', 1].copy(), dr['ray', 1].copy()
+    alias(E[1], lambda: c.beam_intersection(sp0, dr0), [sp0, dr0, *fields], lambda r: [r],
+          lambda: c.beam_intersection(sp_o['ray', 3].copy(), dr_o['ray', 4].copy()))
+    alias(E[2], lambda: c.quadrature(kind), fields, lambda r: [r[0], r[1]])
+    mat_fields = [dens, m.scattering_params.total_scattering_cross_section,
+                  m.scattering_params.absorption_cross_section]
+    det_o = sc.vectors(dims=['det'], values=D[n_det:2 * n_det], unit=U)
+    alias(E[3], lambda: ctm(c, m, bv, lam, det, kind), [lam, det, bv, *fields, *mat_fields],
+          lambda r: [r.data], lambda: ctm(c, m, bv, lam, det_o, kind))
+    det0 = det['det', 0].copy()
+    alias(E[4], lambda: ctm(c, m, bv, lam, det0, kind), [lam, det0, bv, *fields, *mat_fields],
+          lambda r: [r.data])
+    m0 = Material(m.scattering_params, sc.scalar(0.0, unit=dens.unit))
+    alias(E[5], lambda: ctm(c, m0, bv, lam, det, kind),
+          [lam, det, bv, *fields, m0.effective_sample_number_density], lambda r: [r.data])
+    ctx.count('aliasing: coordinates of the map are the inputs (scipp DataArray semantics, not judged)')
+    st.maps.clear()
+    st.case_descr = None
+    return s
+
+
+# ------------------------------------------------ strings that are not NFC / NFKC ---
+UNICODE_PAIRS = (
+    ('e + U+0301 / U+00E9', 'e\u0301', '\u00e9'),
+    ('ANGSTROM SIGN U+212B / U+00C5', '\u212b', '\u00c5'),
+    ('KELVIN SIGN U+212A / K', '\u212a', 'K'),
+    ('OHM SIGN U+2126 / U+03A9', '\u2126', '\u03a9'),
+    ('MICRO SIGN U+00B5 / U+03BC', '\u00b5', '\u03bc'),
+    ('fullwidth det / det', '\uff44\uff45\uff54', 'det'),
+    ('ligature U+FB01 / fi', '\ufb01', 'fi'),
+    ('conjoining jamo U+1100 U+1161 / U+AC00', '\u1100\u1161', '\uac00'),
+    ('GREEK QUESTION MARK U+037E / semicolon', '\u037e', ';'),
+)
+UNICODE_KIND_FORMS = ('fullwidth letters', 'mathematical bold letters')
+
+
+def _kind_lookalike(kind, form):
+    if form == 'fullwidth letters':
+        return ''.join(chr(ord(ch) - ord('a') + 0xff41) for ch in kind)
+    return ''.join(chr(ord(ch) - ord('a') + 0x1d41a) for ch in kind)
+
+
+def unicode_case(rng, st, mods, i):
+    """(n) dimension labels that are not in NFC / NFKC form, used in pairs that normalise to the same
+    text: they are two dims; the map / the table carries exactly the labels that were given (code point
+    by code point) and the numbers are those of the call with plain labels.  A quadrature kind that only
+    normalises to the name of a kind is not that kind: it is refused like any unknown name."""
+    import unicodedata
+    ctx = st.ctx
+    Cylinder, Material, ScatteringParams, ctm = mods
+    s = _moderate_solid(rng, ctx)
+    U = s['U']
+    c = make_cylinder(Cylinder, s)
+    lam_A, lam, D, det, beam = _scene(rng, s, 6, 2)
+    m = _plain_material(mods, s, lam_A, float(rng.uniform(0.4, 2.5)))
+    bv = sc.vector(beam)
+    kind = 'cheap'
+    P, N = bulk_rays(rng, s, 8)
+    grid = sc.vectors(dims=['a', 'b'], values=D.reshape(2, 3, 3), unit=U)
+
+    def the_map(label, lam_, det_):
+        st.case_descr = {'kind': 'unicode labels', 'class': label,
+                         'dims': [[hex(ord(ch)) for ch in d] for d in (*lam_.dims, *det_.dims)]}
+        st.maps.clear()
+        try:
+            res = ctm(c, m, bv, lam_, det_, kind)
+        except Exception:  # noqa: BLE001  judged by the map monitor
+            res = None
+        ctx.case(('unicode labels', label, U))
+        return res, _last_T(st)
+
+    _, ref = the_map('plain labels', lam, det)
+    _, ref2 = the_map('plain labels, 2-d detectors', lam, grid)
+    for k, (label, a, b) in enumerate(UNICODE_PAIRS):
+        if unicodedata.normalize('NFKC', a) != unicodedata.normalize('NFKC', b) or a == b:
+            ctx.oracle_error('C18 unicode pair is not a pair of distinct equivalent strings')
+            continue
+        if (i + k) % 2:
+            a, b = b, a
+        res, t = the_map(label, lam.rename_dims(wavelength=a), det.rename_dims(det=b))
+        _same_map(st, ref, t, label, 'unicode_labels_same_map')
+        ok = res is not None
+        if res is not None:
+            ctx.event('unicode.labels_exact')
+            if dict(res.sizes) != {a: lam.sizes['wavelength'], b: det.sizes['det']}:
+                ok = False
+                ctx.violation('unicode_label_changed',
+                              f'{label}: dims of the map {[[hex(ord(ch)) for ch in d] for d in res.dims]} are not '
+                              'the labels that were given, code point by code point',
+                              {'monitor': 'unicode labels', 'case': st.case_descr}, entry='compute_transmission_map')
+        res, t = the_map(label + ' (2-d detectors)', lam, grid.rename_dims(a=a, b=b))
+        _same_map(st, ref2, t, label, 'unicode_labels_same_map')
+        if res is not None:
+            ctx.event('unicode.labels_exact')
+            if dict(res.sizes) != {a: 2, b: 3, 'wavelength': lam.sizes['wavelength']}:
+                ok = False
+                ctx.violation('unicode_label_changed',
+                              f'{label}: dims of the map {[[hex(ord(ch)) for ch in d] for d in res.dims]} are not '
+                              'the labels that were given, code point by code point',
+                              {'monitor': 'unicode labels', 'case': st.case_descr}, entry='compute_transmission_map')
+        # one such label alone (nothing it could collide with)
+        for lab in (a, b):
+            if unicodedata.normalize('NFC', lab) == lab and unicodedata.normalize('NFKC', lab) == lab:
+                continue
+            res, t = the_map(label + ' (one label alone)', lam, det.rename_dims(det=lab))
+            _same_map(st, ref, t, label, 'unicode_labels_same_map')
+            if res is not None:
+                ctx.event('unicode.labels_exact')
+                if dict(res.sizes) != {lab: det.sizes['det'], 'wavelength': lam.sizes['wavelength']}:
+                    ok = False
+                    ctx.violation('unicode_label_changed',
+                                  f'{label}: dims of the map {[[hex(ord(ch)) for ch in d] for d in res.dims]} are '
+                                  'not the labels that were given, code point by code point',
+                                  {'monitor': 'unicode labels', 'case': st.case_descr},
+                                  entry='compute_transmission_map')
+        # beam_intersection: start points over one label, directions over the equivalent one
+        st.case_descr = {'kind': 'unicode labels', 'class': label, 'entry': 'beam_intersection'}
+        st.layout, st.ray_classes = 'outer product over two labels that normalise to the same text', None
+        before = st.outer_returns
+        try:
+            c.beam_intersection(sc.vectors(dims=[a], values=P[:3], unit=U), sc.vectors(dims=[b], values=N[3:7]))
+        except Exception:  # noqa: BLE001  judged by the monitor (dims of the table against the broadcast by label)
+            pass
+        st.layout = None
+        if ok and st.outer_returns > before:
+            ctx.hit('unicode dims: ' + label)
+    # kind names
+    for form in UNICODE_KIND_FORMS:
+        for kn in KINDS:
+            name = _kind_lookalike(kn, form)
+            if unicodedata.normalize('NFKC', name) != kn or name == kn:
+                ctx.oracle_error('C18 unicode kind look-alike')
+                continue
+            st.case_descr = {'kind': 'unicode kind name', 'form': form, 'normalises_to': kn,
+                             'code_points': [hex(ord(ch)) for ch in name]}
+            for entry, f in (('quadrature', lambda name=name: c.quadrature(name)),
+                             ('compute_transmission_map', lambda name=name: ctm(c, m, bv, lam, det, name))):
+                st.maps.clear()
+                try:
+                    f()
+                    returned = True
+                except Exception as e:  # noqa: BLE001
+                    returned = False
+                    ctx.count(f'refused:kind_name_that_only_normalises_to_a_kind:{type(e).__name__}')
+                ctx.event('unicode.kind_name')
+                if returned:
+                    ctx.violation('kind_name_not_exact',
+                                  f'{entry}: a kind written in {form} (it only normalises to {kn!r}) was accepted',
+                                  {'monitor': 'unicode kind name', 'case': st.case_descr}, entry=entry)
+            ctx.case(('unicode kind name', form, kn))
+        ctx.hit('unicode kind name: ' + form)
+    st.maps.clear()
+    st.case_descr = None
+    return s
+
+
+# --------------------------------------------- first call in a fresh interpreter ---
+FRESH_MODES = ('cylinder module only, beam_intersection first', 'base module, compute_transmission_map first',
+               'cylinder module only, quadrature first', 'base module, compute_transmission_map first (other hash seed)')
+FRESH_LAYOUTS = (('flat', ('det',), None), ('2-d', ('row', 'col'), (2, 3)), ('2-d', ('tube', 'pixel'), (3, 2)),
+                 ('2-d', ('y', 'x'), (2, 3)), ('2-d', ('pixel', 'tube'), (3, 2)),
+                 ('3-d', ('bank', 'tube', 'pixel'), (1, 3, 2)), ('3-d', ('a', 'b', 'c'), (3, 1, 2)))
+
+_FRESH_SCRIPT = r'''
+import json, sys
+d = json.load(sys.stdin)
+import numpy as np
+import scipp as sc
+fh = float.fromhex
+def arr(x):
+    return np.array([fh(v) for v in x['hex']], dtype=np.float64).reshape(x['shape'])
+def vecs(x):
+    a = arr(x)
+    if not x['dims']:
+        return sc.vector(a.reshape(3), unit=x['unit'])
+    return sc.vectors(dims=x['dims'], values=a, unit=x['unit'])
+def scal(x):
+    a = arr(x)
+    if not x['dims']:
+        return sc.scalar(float(a.reshape(())), unit=x['unit'])
+    return sc.array(dims=x['dims'], values=a, unit=x['unit'])
+def out(v):
+    a = np.asarray(v.values, dtype=np.float64)
+    return {'dims': list(v.dims), 'shape': list(a.shape), 'unit': str(v.unit),
+            'hex': [float(t).hex() for t in a.ravel()]}
+rep = {'results': [], 'import_exc': None}
+try:
+    if d['mode'] == 'cylinder':
+        import scippneutron.absorption.cylinder as M
+        Cylinder = M.Cylinder
+    else:
+        import scippneutron.absorption.base as M
+        from scippneutron.absorption.cylinder import Cylinder
+        from scippneutron.absorption.material import Material
+    rep['file'] = M.__file__
+except Exception as e:
+    rep['import_exc'] = repr(e)
+if rep['import_exc'] is None:
+    c = Cylinder(vecs(d['axis']), vecs(d['base']), scal(d['radius']), scal(d['height']))
+    for call in d['calls']:
+        try:
+            if call['f'] == 'beam_intersection':
+                r = out(c.beam_intersection(vecs(call['start_point']), vecs(call['direction'])))
+            elif call['f'] == 'quadrature':
+                p, w = c.quadrature(call['kind'])
+                r = {'points': out(p), 'weights': out(w)}
+            elif call['f'] == 'volume':
+                r = out(c.volume)
+            else:
+                class Params:
+                    pass
+                sp = Params()
+                sp.total_scattering_cross_section = scal(call['sigma_s'])
+                sp.absorption_cross_section = scal(call['sigma_a'])
+                mat = Material(sp, scal(call['density']))
+                res = M.compute_transmission_map(c, mat, vecs(call['beam']), scal(call['wavelength']),
+                                                 vecs(call['detector_position']), call['kind'])
+                r = out(res.data)
+            rep['results'].append({'ok': r})
+        except Exception as e:
+            rep['results'].append({'exc': repr(e)})
+rep['hash_seed'] = __import__('os').environ.get('PYTHONHASHSEED')
+rep['flags'] = [sys.flags.optimize]
+sys.stdout.write('RVJSON' + json.dumps(rep))
+'''
+
+
+def _enc(v):
+    a = np.asarray(v.values, dtype=np.float64)
+    return {'dims': list(v.dims), 'shape': list(a.shape), 'unit': str(v.unit),
+            'hex': [float(t).hex() for t in a.ravel()]}
+
+
+def _dec(x):
+    a = np.array([float.fromhex(t) for t in x['hex']], dtype=np.float64).reshape(x['shape'])
+    return list(x['dims']), a, x['unit']
+
+
+def fresh_process_case(rng, st, mods, mode_index, shard):
+    """(o) a subprocess that imports only the module of the entry point (plus the modules of the classes
+    of its arguments), under a hash seed other than the worker's, calls it once (then the other entry
+    points): it must answer what the worker process answers for the same inputs (those calls are judged by
+    the monitors here).  The 2-d / 3-d detector layouts make the order of sets of dim labels visible."""
+    import json
+    import os
+    import subprocess
+    import sys
+    ctx = st.ctx
+    Cylinder, Material, ScatteringParams, ctm = mods
+    mode = FRESH_MODES[mode_index]
+    s = _moderate_solid(rng, ctx)
+    U = s['U']
+    c = make_cylinder(Cylinder, s)
+    lam_A, lam, D, det, beam = _scene(rng, s, 6, 2)
+    m = _plain_material(mods, s, lam_A, float(rng.uniform(0.4, 2.5)))
+    bv = sc.vector(beam)
+    kind = KINDS[mode_index % 2]
+    P, N = bulk_rays(rng, s, 10)
+    sp = sc.vectors(dims=['ray'], values=P, unit=U)
+    dr = sc.vectors(dims=['ray'], values=N)
+    calls, local = [], []
+    beam_call = {'f': 'beam_intersection', 'start_point': _enc(sp), 'direction': _enc(dr)}
+    quad_call = {'f': 'quadrature', 'kind': kind}
+    if mode_index in (0, 2):
+        order = (beam_call, quad_call) if mode_index == 0 else (quad_call, beam_call)
+        calls.extend(order)
+        calls.append({'f': 'volume'})
+    else:
+        spar = m.scattering_params
+        for name, dims, shape in FRESH_LAYOUTS:
+            dv = det if shape is None else sc.vectors(dims=list(dims), values=D.reshape(*shape, 3), unit=U)
+            calls.append({'f': 'map', 'kind': kind, 'beam': _enc(bv), 'wavelength': _enc(lam),
+                          'detector_position': _enc(dv), 'density': _enc(m.effective_sample_number_density),
+                          'sigma_s': _enc(spar.total_scattering_cross_section),
+                          'sigma_a': _enc(spar.absorption_cross_section)})
+            local.append(dv)
+        calls.extend((quad_call, beam_call))
+    hash_seed = 1 + (shard['seed'] * 7919 + shard['index'] * 104729 + mode_index) % 4_000_000
+    payload = {'mode': 'cylinder' if mode_index in (0, 2) else 'base', 'axis': _enc(c.symmetry_line),
+               'base': _enc(c.center_of_base), 'radius': _enc(c.radius), 'height': _enc(c.height), 'calls': calls}
+    env = dict(os.environ, PYTHONHASHSEED=str(hash_seed))
+    st.case_descr = {'kind': 'fresh interpreter', 'mode': mode, 'hash_seed': hash_seed, 'quadrature': kind}
+    try:
+        p = subprocess.run([sys.executable, '-c', _FRESH_SCRIPT], input=json.dumps(payload), env=env,
+                           capture_output=True, text=True, timeout=300)
+        if p.returncode != 0 or 'RVJSON' not in p.stdout:
+            ctx.inconclusive_because('C18 fresh-interpreter helper failed outside the calls under test: '
+                                     + (p.stderr or '')[-300:])
+            return s
+        rep = json.loads(p.stdout.split('RVJSON', 1)[1])
+    except subprocess.TimeoutExpired:
+        ctx.inconclusive_because('C18 fresh-interpreter helper hit its watchdog')
+        return s
+    except Exception:  # noqa: BLE001
+        ctx.oracle_error('C18 fresh-interpreter helper')
+        return s
+    case = {'monitor': 'fresh interpreter', 'case': st.case_descr}
+    if rep.get('import_exc'):
+        ctx.event('fresh_process.import')
+        ctx.violation('fresh_process_import_failed',
+                      f'{mode}: importing the module in a fresh interpreter raised {rep["import_exc"]}', case,
+                      mode=payload['mode'])
+        return s
+    want_src = os.path.realpath(os.environ.get('RV_REPO_SRC', '/repo/src'))
+    if not os.path.realpath(rep.get('file', '')).startswith(want_src + os.sep):
+        ctx.inconclusive_because(f'C18 fresh interpreter imported {rep.get("file")}, not the tree under test')
+        return s
+    ctx.event('fresh_process.import')
+
+    def compare(label, entry, got, ref_dims, ref_vals, scale):
+        """got: encoded Variable of the subprocess; ref: what the worker answered."""
+        dims, a, _unit = _dec(got)
+        ctx.event('fresh_process.same_result')
+        if set(dims) != set(ref_dims) or len(dims) != len(ref_dims):
+            ctx.violation('fresh_process_differs', f'{label}: dims {dims} in the fresh interpreter, {ref_dims} here',
+                          case, entry=entry)
+            return
+        if dims:
+            a = np.transpose(a, [dims.index(d) for d in ref_dims] + list(range(len(dims), a.ndim)))
+        d_ = float(np.max(np.abs(a - ref_vals))) if a.shape == ref_vals.shape and a.size else (
+            0.0 if a.shape == ref_vals.shape else float('inf'))
+        ctx.dev(f'fresh interpreter: |result - result in the worker| / scale [{entry}]', d_ / scale)
+        if not d_ <= 1e-12 * scale:
+            ctx.violation('fresh_process_differs',
+                          f'{label}: the first call in a fresh interpreter (PYTHONHASHSEED={hash_seed}) differs '
+                          f'from the same call in the worker by {d_:.3g}',
+                          dict(case, fresh=a.ravel()[:6].tolist(), worker=ref_vals.ravel()[:6].tolist()),
+                          entry=entry)
+
+    k_map = 0
+    for call, r in zip(calls, rep['results'], strict=False):
+        f = call['f']
+        label = f'{mode}: {f}'
+        st.case_descr = dict(st.case_descr, call=f)
+        st.maps.clear()
+        st.ray_classes = None
+        try:
+            if f == 'beam_intersection':
+                ref = c.beam_intersection(sp, dr)
+            elif f == 'quadrature':
+                ref = c.quadrature(kind)
+            elif f == 'volume':
+                ref = c.volume
+                judge_props(st, c, 'fresh interpreter')
+            else:
+                dv = local[k_map]
+                label += f' [{FRESH_LAYOUTS[k_map][0]} {"/".join(FRESH_LAYOUTS[k_map][1])}]'
+                k_map += 1
+                ref = ctm(c, m, bv, lam, dv, kind)
+        except Exception:  # noqa: BLE001  judged by the monitors
+            ref = None
+        if ref is None:
+            ctx.count('fresh interpreter: the call raised in the worker (judged there)')
+            continue
+        if 'exc' in r:
+            ctx.event('fresh_process.same_result')
+            ctx.violation('fresh_process_raised',
+                          f'{label}: raised {r["exc"]} in a fresh interpreter (PYTHONHASHSEED={hash_seed}), '
+                          'returned in the worker', case, entry=f)
+            continue
+        g = r['ok']
+        if f == 'quadrature':
+            compare(label + ' points', f, g['points'], list(ref[0].dims), _vals(ref[0]),
+                    float(np.max(np.abs(_vals(ref[0])))) or 1.0)
+            compare(label + ' weights', f, g['weights'], list(ref[1].dims), _vals(ref[1]),
+                    float(np.max(np.abs(_vals(ref[1])))) or 1.0)
+        elif f == 'beam_intersection':
+            compare(label, f, g, list(ref.dims), _vals(ref), (s['r'] + s['h']))
+        elif f == 'volume':
+            compare(label, f, g, [], _vals(ref), float(ref.value))
+        else:
+            compare(label, 'compute_transmission_map', g, list(ref.data.dims), _vals(ref.data), 1.0)
+        ctx.case(('fresh interpreter', mode, f, kind))
+    if len(rep['results']) == len(calls):
+        ctx.hit('fresh interpreter: ' + mode)
+    st.maps.clear()
+    st.case_descr = None
+    return s
+
+
 # ---------------------------------------------------------------------- driver ---
 def plan(tier, seed):
     # the one heavy case of a run has the last shard for itself (quick) / rides on it (thorough)
     # the generic large operands ride on the last regular shard (quick) / on shard 14 (thorough)
+    # round-7 classes: sizes coinciding with internal sizes, in-place modification / aliasing, labels that are
+    # not NFC on every shard; the 'expensive' rule with as many pixels as nodes once per run; the fresh
+    # interpreters (one subprocess each, four modes / hash seeds) on shards 1..4
     if tier == 'quick':
         return [{'rays': 60, 'quads': 48, 'trans': 8, 'state': 5, 'mat_state': 4, 'layouts': 3,
                  'det_layouts': 1, 'units': 1, 'poly': 1, 'conv': 1, 'reuse': 1, 'var': 1, 'map_dims': 1,
+                 'coin': 1, 'coin_expensive': i == 13, 'alias': 1, 'unicode': 1,
+                 'fresh': i - 1 if 1 <= i <= 4 else None,
                  'sizes': i == 14, 'heavy': False}
                 for i in range(15)] + [
             {'rays': 0, 'quads': 0, 'trans': 0, 'state': 0, 'mat_state': 0, 'heavy': True}]
     return [{'rays': 3000, 'quads': 2250, 'trans': 200, 'state': 150, 'mat_state': 50,
              'layouts': 150, 'det_layouts': 30, 'units': 9, 'poly': 25, 'conv': 10, 'reuse': 10, 'var': 10,
-             'map_dims': 10, 'sizes': i == 14, 'heavy': i == 15} for i in range(16)]
+             'map_dims': 10, 'coin': 6, 'coin_expensive': i in (3, 13), 'alias': 12, 'unicode': 4,
+             'fresh': i % 4 if i < 12 else None,
+             'sizes': i == 14, 'heavy': i == 15} for i in range(16)]
 
 
 def requirements(tier):
@@ -3331,6 +4116,12 @@ def requirements(tier):
         'standin_shape_same_map': 20, 'call_form_same_map': 60, 'graph_node.result': 20,
         'second_use_same_map': 60, 'map_dim_names_same_map': 80,
         'attenuation_coefficient.variances': 30, 'state.volume.variances': 30,
+        'map_same_pixels_in_batches': 60, 'inplace.same_objects_vs_fresh_copies': 20,
+        'inplace_same_objects_vs_fresh_copies': 60, 'aliasing.result_after_argument_write': 60,
+        'aliasing.arguments_after_result_write': 60, 'aliasing.repeat_after_result_write': 60,
+        'aliasing.result_after_later_call': 30,
+        'unicode_labels_same_map': 200, 'unicode.labels_exact': 200, 'unicode.kind_name': 100,
+        'fresh_process.import': 4, 'fresh_process.same_result': 20,
     }
     forced = list(FORCED_AXIS.values()) + [
         'axis z<0', 'axis in the xy-plane at a generic angle',
@@ -3360,6 +4151,14 @@ def requirements(tier):
     forced += ['variances: ' + x for x in VARIANCE_CLASSES]
     forced += ['map operands: ' + x for x in MAP_DIM_CLASSES]
     forced += ['sizes: ' + x for x in SIZE_CLASSES]
+    forced += [f'sizes [{k}]: {x}' for k in COINCIDENCE_KINDS for x in COINCIDENCE_CLASSES]
+    forced += [f'sizes [expensive]: {COINCIDENCE_CLASSES[0]}']
+    forced += ['sizes: ' + x for x in RAY_COINCIDENCE_CLASSES]
+    forced += ['in place: ' + x for x in INPLACE_STEPS]
+    forced += ['aliasing: ' + x for x in ALIAS_ENTRIES]
+    forced += ['unicode dims: ' + x[0] for x in UNICODE_PAIRS]
+    forced += ['unicode kind name: ' + x for x in UNICODE_KIND_FORMS]
+    forced += ['fresh interpreter: ' + x for x in FRESH_MODES]
     if tier == 'thorough':
         forced.append('per-detector loop branch observed (2-d array with rows above the threshold)')
         forced.append('per-detector loop branch observed (2-d array of many thin rows)')
@@ -3528,6 +4327,25 @@ def run(shard, ctx):
         st.origin = 'transmission'
         for i in range(shard.get('map_dims', 0)):
             map_dims_case(rng3, st, mods, i + shard['index'])
+        # round-7 classes: a fourth stream
+        rng4 = np.random.Generator(np.random.PCG64([shard['seed'], shard['index'], 18181818]))
+        for i in range(shard.get('coin', 0)):
+            st.origin = 'transmission'
+            every = tuple(range(len(COINCIDENCE_CLASSES)))
+            coincidence_case(rng4, st, mods, i + shard['index'], 'cheap', every)
+            coincidence_case(rng4, st, mods, i + shard['index'], 'medium',
+                             COINCIDENCE_PARTS[(i + shard['index']) % len(COINCIDENCE_PARTS)])
+            st.origin = 'direct'
+            ray_coincidence_case(rng4, st, Cylinder, i + shard['index'])
+        st.origin = 'transmission'
+        if shard.get('coin_expensive'):
+            coincidence_case(rng4, st, mods, shard['index'], 'expensive', (0,))
+        for i in range(shard.get('alias', 0)):
+            inplace_alias_case(rng4, st, mods, i + shard['index'])
+        for i in range(shard.get('unicode', 0)):
+            unicode_case(rng4, st, mods, i + shard['index'])
+        if shard.get('fresh') is not None:
+            fresh_process_case(rng4, st, mods, int(shard['fresh']), shard)
         if shard.get('sizes'):
             st.origin = 'direct'
             sizes_case(rng3, st, Cylinder)
